@@ -44,3 +44,127 @@ def cleanup(kind: str, storage) -> None:
             storage.fs_constructor().rm(str(storage._storage_path), recursive=True)
         except Exception:
             pass
+
+
+# ---------------------------------------------------------------------------------------------------
+# fault-injecting wrapper (C12, C13): wraps any Storage through the public ABC
+# ---------------------------------------------------------------------------------------------------
+
+import signal as _signal
+
+from labtech.types import Storage as _Storage
+
+
+class InjectedOSError(OSError):
+    pass
+
+
+def _log_event(path, text):
+    if path:
+        fd = os.open(path, os.O_WRONLY | os.O_APPEND | os.O_CREAT, 0o644)
+        try:
+            os.write(fd, (text + '\n').encode())
+        finally:
+            os.close(fd)
+
+
+class FaultyStorage(_Storage):
+    """Counts the storage events of the write path (open / write / flush / close, each before and after, writes also
+    mid-way) and, at event number `fault_at`, either raises InjectedOSError (action='raise') or kills the current process
+    (action='kill9' / 'kill15'; flavour 'lost' = Python-level buffers are not flushed first, 'flushed' = they are)."""
+
+    def __init__(self, inner, fault_at=None, action='raise', flavour='lost', log_path=None):
+        self.inner = inner
+        self.fault_at = fault_at
+        self.action = action
+        self.flavour = flavour
+        self.log_path = log_path
+        self.count = 0
+        self.open_handles = []
+
+    def _event(self, name, handle=None, data=None):
+        i = self.count
+        self.count += 1
+        _log_event(self.log_path, f'{i} {name}')
+        if i != self.fault_at:
+            return
+        _log_event(self.log_path, f'FAULT {i} {name} {self.action}')
+        if name == 'write-mid' and handle is not None and data is not None:
+            handle.write(data[:len(data) // 2])
+        if self.action == 'raise':
+            raise InjectedOSError(f'injected fault at storage event {i} ({name})')
+        if self.flavour == 'flushed':
+            for h in self.open_handles:
+                try:
+                    h.flush()
+                except Exception:
+                    pass
+        os.kill(os.getpid(), _signal.SIGKILL if self.action == 'kill9' else _signal.SIGTERM)
+        import time
+        time.sleep(30)
+
+    def find_keys(self):
+        return self.inner.find_keys()
+
+    def exists(self, key):
+        return self.inner.exists(key)
+
+    def delete(self, key):
+        return self.inner.delete(key)
+
+    def file_handle(self, key, filename, *, mode='r'):
+        if mode[:1] not in ('w', 'a', 'x'):
+            return self.inner.file_handle(key, filename, mode=mode)
+        self._event(f'open-before:{filename}')
+        h = self.inner.file_handle(key, filename, mode=mode)
+        self.open_handles.append(h)
+        try:
+            self._event(f'open-after:{filename}')
+        except BaseException:
+            h.close()
+            raise
+        return FaultyHandle(self, h, filename)
+
+
+class FaultyHandle:
+    def __init__(self, storage, inner, filename):
+        self._s = storage
+        self._h = inner
+        self._fn = filename
+        self._closed = False
+
+    def write(self, data):
+        self._s._event('write-before')
+        self._s._event('write-mid', self._h, data)
+        n = self._h.write(data)
+        self._s._event('write-after')
+        return n
+
+    def flush(self):
+        self._s._event('flush-before')
+        r = self._h.flush()
+        self._s._event('flush-after')
+        return r
+
+    def close(self):
+        if self._closed:
+            return
+        try:
+            self._s._event('close-before')
+            self._closed = True
+            self._h.close()
+            self._s._event('close-after')
+        finally:
+            if not self._closed:
+                self._closed = True
+                self._h.close()
+
+    def __enter__(self):
+        return self
+
+    def __exit__(self, *exc):
+        self.close()
+        return False
+
+    def __getattr__(self, name):
+        return getattr(self._h, name)
